@@ -4,6 +4,9 @@
    operation mix, every schedule, spurious weak-CAS failures). *)
 From Coq Require Import List NArith.
 From Pika Require Import Base.Conc Model.IndexQueue Proofs.IndexQueueProofs.
+From Pika Require Import Model.DequeSpec Model.Deque Model.DequeWitness Proofs.DequeProofs.
+From Pika Require Import Model.DequeExplore Proofs.DequeBoundedProofs Proofs.DequeSafetyProofs.
+From Pika Require Import Gen.GenBackends Model.Backends Proofs.BackendsProofs.
 Import ListNotations.
 Local Open Scope N_scope.
 
@@ -58,3 +61,167 @@ Example C17_iq_example :
                         (1%nat,false);(1%nat,false);(1%nat,false)] 3 7 progs) in
   popped (iqlog g) = [4; 5; 6; 3] /\ cur g = {| first := 4; last := 4 |} /\ has_none (iqlog g).
 Proof. vm_compute. repeat split. eexists. split; [left; reflexivity|reflexivity]. Qed.
+
+(* ======================================================================================
+   Part 2: the lock-free deque (Michael's CAS-based deque, deque.hpp) — Model/Deque.v.
+   ====================================================================================== *)
+
+(* 2.1 Single-threaded use: ANY thread running ANY sequence of push_left/right v, pop_left/right
+   alone (any initial pool size k, so nodes are recycled through the LIFO freelist; the
+   schedule gives the thread at least 12 steps per operation, extra steps are no-ops) gets
+   exactly the results of the two-ended list, finishes every operation, leaves the anchor
+   stable, and the chain read from the left end along the right links is the list. *)
+Theorem C17_deque_seq_refines_list : forall t k ops n (progs : nat -> list dop),
+  progs t = ops -> (12 * length ops <= n)%nat ->
+  let c := run dq_tstep (solo t n) (dq_init k, dq_locals progs) in
+  dq_results t (dlog (fst c)) = fst (spec_run ops []) /\
+  dtodo (snd c t) = [] /\ dpc (snd c t) = DIdle /\
+  ast (anc (fst c)) = Stable /\
+  dq_contents (length (snd (spec_run ops []))) (fst c) = snd (spec_run ops []).
+Proof. exact deque_seq_refines_list_lemma2. Qed.
+Print Assumptions C17_deque_seq_refines_list.
+
+(* 2.2 The full concurrent statement of C17 for the deque —
+     [deque_exactly_once_all_schedules]: for every pool size, every assignment of programs to
+     threads and every schedule, no value is delivered more often than it was pushed (nothing
+     twice, nothing invented), and once all threads are done and the deque reports empty every
+     pushed value has been delivered —
+   is FALSE of the code as it is (DESIGN.md F15): alloc_node re-initialises the link tags of a
+   recycled node to 0, so a link CAS of a stalled stabilize succeeds against a later
+   incarnation.  Witness: Model/DequeWitness.v (replayed on the real deque by the check). *)
+Theorem C17_deque_aba_refuted : ~ deque_exactly_once_all_schedules.
+Proof. exact deque_aba_refuted_lemma. Qed.
+Print Assumptions C17_deque_aba_refuted.
+
+(* the witness in detail: all four threads finish, the drain gets 100,5,4 and then "empty";
+   4 was pushed once and delivered twice, 6 was pushed and never delivered *)
+Theorem C17_deque_aba_witness :
+  let c := run dq_tstep aba_full_sched (dq_init aba_k, dq_locals aba_progs) in
+  let g := fst c in
+  (forall t, (t < 4)%nat -> dq_done (snd c t) = true) /\
+  al (anc g) = 0 /\ dq_results 3 (dlog g) = [Some 100; Some 5; Some 4; None; None] /\
+  count_occ_N 4 (pushed_vals (dlog g)) = 1%nat /\ count_occ_N 4 (popped_vals (dlog g)) = 2%nat /\
+  count_occ_N 6 (pushed_vals (dlog g)) = 1%nat /\ count_occ_N 6 (popped_vals (dlog g)) = 0%nat /\
+  aba g = true.
+Proof. exact aba_witness_facts. Qed.
+Print Assumptions C17_deque_aba_witness.
+
+(* 2.3 What does hold for every schedule, every thread count, every program. *)
+
+(* the anchor tag counts the successful anchor CASes: it grows by exactly one with each *)
+Theorem C17_deque_anchor_tag_counts_cas : forall k progs sched,
+  let g := fst (dq_run sched k progs) in atag (anc g) = ncas g.
+Proof. intros k progs sched. apply run_tag_counts. reflexivity. Qed.
+Print Assumptions C17_deque_anchor_tag_counts_cas.
+
+Theorem C17_deque_anchor_tag_monotone : forall sched (c : dq_shared * locals dq_local),
+  atag (anc (fst c)) <= atag (anc (fst (run dq_tstep sched c))).
+Proof. exact run_tag_mono. Qed.
+Print Assumptions C17_deque_anchor_tag_monotone.
+
+(* hence "anchor_ == lrs" validates a snapshot: if the anchor after s1 ++ s2 equals the anchor
+   at the start, no anchor CAS succeeded at any point in between *)
+Theorem C17_deque_anchor_snapshot_valid : forall s1 s2 (c : dq_shared * locals dq_local),
+  anc (fst (run dq_tstep (s1 ++ s2) c)) = anc (fst c) ->
+  anc (fst (run dq_tstep s1 c)) = anc (fst c) /\ ncas (fst (run dq_tstep s1 c)) = ncas (fst c).
+Proof. exact run_anchor_unchanged_between. Qed.
+Print Assumptions C17_deque_anchor_snapshot_valid.
+
+(* a value is reported as popped only by the step FREE of the reporting thread, it is the data
+   of the node that thread holds; and a thread gets to FREE only by its own successful anchor
+   CAS (which raised the tag by one): pops are attributed once per successful CAS *)
+Theorem C17_deque_pop_logged_only_at_free : forall o t g l e,
+  dlog (fst (dq_tstep o t g l)) = e :: dlog g -> forall s v, dv_op e = Pop s -> dv_res e = Some v ->
+  dv_tid e = t /\ exists a, dpc l = QFree s a /\ v = ndata (heap g a).
+Proof. exact pop_logged_only_at_free. Qed.
+Print Assumptions C17_deque_pop_logged_only_at_free.
+
+Theorem C17_deque_free_entered_only_by_cas : forall o t g l s a,
+  dpc (snd (dq_tstep o t g l)) = QFree s a ->
+  dpc l = QFree s a \/
+  exists lrs np, dpc l = QCas s lrs np /\ anc g = lrs /\ a = aend s lrs /\
+                 anc (fst (dq_tstep o t g l)) = pop_desired s lrs np /\
+                 atag (anc (fst (dq_tstep o t g l))) = atag (anc g) + 1.
+Proof. exact free_entered_only_by_cas. Qed.
+Print Assumptions C17_deque_free_entered_only_by_cas.
+
+(* memory safety, for every schedule / thread count / program, also after an ABA: every pointer
+   in the anchor, in any link of any chunk, in the pool head and in every thread's registers
+   (snapshots, prev, prevnext, own node) is nullptr or a chunk the type-stable pool has already
+   handed out or pre-allocated (< fresh) — so every dereference of the code goes to a
+   deque_node, which is what makes reading a freed node benign *)
+Theorem C17_deque_memory_safe : forall k progs sched,
+  let c := dq_run sched k progs in
+  (0 < fresh (fst c) /\ (forall a, node_ok (fresh (fst c)) (heap (fst c) a)) /\
+   anchor_ok (fresh (fst c)) (anc (fst c)) /\ pool (fst c) < fresh (fst c)) /\
+  forall t, pc_ok (fresh (fst c)) (dpc (snd c t)).
+Proof. exact deque_memory_safe_lemma. Qed.
+Print Assumptions C17_deque_memory_safe.
+
+(* 2.4 Conservation under the guard "no link CAS hits a freed / re-allocated node" — PARTIAL.
+   Full statement (NOT proved): for every pool size, all programs and every schedule, if
+   [aba] is still false then no value has been delivered more often than it was pushed, no
+   thread dereferenced nullptr, and whenever all threads are done the pushed values are exactly
+   the popped ones plus the chain (the log is a legal history of the list deque).
+   Proved: exactly that, for EVERY schedule (any length, any thread ids), but only for the
+   finite list [guarded_configs] of start configurations (2-3 threads with one operation each on
+   contents with a stale link / one element / empty deque / recycled node) — by an explorer of all
+   interleavings whose soundness for arbitrary schedules is proved in general
+   (Proofs/DequeBoundedProofs.explore_sound) and which is evaluated by vm_compute. *)
+Theorem C17_deque_linearizable_guarded_partial : forall k init progs sched,
+  In (k, init, progs) guarded_configs ->
+  let c := run dq_tstep sched (start_state k init, lfun (start_locals progs)) in
+  exists ls', (forall t, snd c t = lget ls' t) /\ length ls' = length progs /\ conserved (fst c) ls' = true.
+Proof. exact deque_linearizable_guarded_partial_lemma. Qed.
+Print Assumptions C17_deque_linearizable_guarded_partial.
+
+(* ======================================================================================
+   Part 3: the queue back-ends (lockfree_queue_backends.hpp); the table push_end / pop_end is
+   regenerated from the header on every run (Gen/GenBackends.v).
+   ====================================================================================== *)
+Theorem C17_backend_ends :
+  push_end Lifo false = SL /\ push_end Lifo true = SR /\ pop_end Lifo false = SL /\ pop_end Lifo true = SL /\
+  push_end AbpFifo false = SL /\ push_end AbpFifo true = SL /\ pop_end AbpFifo false = SR /\ pop_end AbpFifo true = SL /\
+  push_end AbpLifo false = SL /\ push_end AbpLifo true = SR /\ pop_end AbpLifo false = SL /\ pop_end AbpLifo true = SR.
+Proof. exact backend_ends_table. Qed.
+Print Assumptions C17_backend_ends.
+
+(* owner order: lifo and abp_lifo are LIFO for the owner from any contents; abp_fifo is FIFO *)
+Theorem C17_backend_lifo_owner_lifo : forall vs l,
+  spec_run (map (owner_push Lifo) vs ++ repeat (owner_pop Lifo) (length vs)) l =
+  (nones (length vs) ++ map Some (rev vs), l).
+Proof. exact lifo_owner_lifo. Qed.
+Print Assumptions C17_backend_lifo_owner_lifo.
+
+Theorem C17_backend_abp_lifo_owner_lifo : forall vs l,
+  spec_run (map (owner_push AbpLifo) vs ++ repeat (owner_pop AbpLifo) (length vs)) l =
+  (nones (length vs) ++ map Some (rev vs), l).
+Proof. exact abp_lifo_owner_lifo. Qed.
+Print Assumptions C17_backend_abp_lifo_owner_lifo.
+
+Theorem C17_backend_abp_fifo_owner_fifo : forall vs,
+  spec_run (map (owner_push AbpFifo) vs ++ repeat (owner_pop AbpFifo) (length vs)) [] =
+  (nones (length vs) ++ map Some vs, []).
+Proof. exact abp_fifo_owner_fifo. Qed.
+Print Assumptions C17_backend_abp_fifo_owner_fifo.
+
+(* thieves: abp_lifo thieves take the oldest elements (opposite end), abp_fifo thieves the newest *)
+Theorem C17_backend_abp_lifo_thief_oldest_first : forall vs k, (k <= length vs)%nat ->
+  spec_run (map (owner_push AbpLifo) vs ++ repeat (thief_pop AbpLifo) k) [] =
+  (nones (length vs) ++ map Some (firstn k vs), view (pop_end AbpLifo true) (skipn k vs)).
+Proof. exact abp_lifo_thief_oldest_first. Qed.
+Print Assumptions C17_backend_abp_lifo_thief_oldest_first.
+
+Theorem C17_backend_abp_fifo_thief_newest_first : forall vs k, (k <= length vs)%nat ->
+  spec_run (map (owner_push AbpFifo) vs ++ repeat (thief_pop AbpFifo) k) [] =
+  (nones (length vs) ++ map Some (firstn k (rev vs)), view (pop_end AbpFifo true) (skipn k (rev vs))).
+Proof. exact abp_fifo_thief_newest_first. Qed.
+Print Assumptions C17_backend_abp_fifo_thief_newest_first.
+
+(* non-vacuity: a concrete sequential run with node reuse through a pool of one chunk *)
+Example C17_deque_example :
+  let ops := [Push SR 1; Push SL 2; Pop SR; Push SR 3; Pop SL; Pop SL; Pop SL; Push SL 7] in
+  let c := run dq_tstep (solo 5 96) (dq_init 1, dq_locals (fun t => if Nat.eqb t 5 then ops else [])) in
+  dq_results 5 (dlog (fst c)) = [None; None; Some 1; None; Some 2; Some 3; None; None] /\
+  dq_contents 1 (fst c) = [7] /\ fresh (fst c) = 3.
+Proof. vm_compute. repeat split. Qed.
